@@ -10,6 +10,7 @@ pub fn model(tier: Tier, world: &str) -> Hist {
     let (w, s0) = world_by_name(if world.is_empty() { "A" } else { world });
     let mut roots = standard_roots(&w, &s0, false);
     roots.extend(tokenless_roots(&w, &s0));
+    roots.extend(killed_root(&w, &s0));
     let mut alpha = Alphabet::standard(vec![0, 1], vec![0, 1]);
     alpha.tokenless = true;
     alpha.collect = false;
@@ -51,6 +52,6 @@ pub fn run(tier: Tier) -> Outcome {
             "environment model E1 (svm-lite) stands in for the Solana runtime".into(),
             "banks in token-less repayment mode (roots RT / RTC / RTD) are reached through configure_bank, a deleverage-bracketed repay-all by the risk admin and force_tokenless_repay_complete".into(),
         ],
-        &[],
+        &["RK"],
     )
 }
